@@ -1082,3 +1082,113 @@ Proof.
   destruct (mem_str p phs); auto.
   specialize (I p phs rows z L). destruct (insert_phase p phs rows z) as [a b]. simpl in I. apply IH. exact I.
 Qed.
+
+(* ------------------------------------------------------------------ several packages *)
+Lemma nth_upd_gen {A} (l : list A) p q x d :
+  nth q (upd l p x) d = if Nat.eqb q p && Nat.ltb p (length l) then x else nth q l d.
+Proof.
+  revert p q; induction l as [|a l IHl]; intros p q.
+  - simpl. rewrite andb_false_r. destruct p; reflexivity.
+  - destruct p as [|p], q as [|q]; simpl; auto.
+    rewrite IHl. reflexivity.
+Qed.
+
+Definition mcoh_all (cs : list cfg) (ms : mstate) : Prop :=
+  forall pk, coh (nth pk cs dflt_cfg) (nth pk (mpk ms) dflt_st).
+
+Lemma coh_dflt c : coh c dflt_st.
+Proof. apply coh_init. Qed.
+
+Lemma coh_caches c s s' : scc s' = scc s -> smc s' = smc s -> coh c s -> coh c s'.
+Proof. intros E1 E2 [H1 H2]. split; rewrite ?E1, ?E2; auto. Qed.
+
+Lemma mcoh_upd cs ms pk s' w : mcoh_all cs ms -> coh (nth pk cs dflt_cfg) s' ->
+  mcoh_all cs (mkms (upd (mpk ms) pk s') w).
+Proof.
+  intros H Hs q. simpl. rewrite nth_upd_gen.
+  destruct (Nat.eqb q pk) eqn:E; simpl; [|apply H].
+  apply Nat.eqb_eq in E. subst q. destruct (Nat.ltb pk (length (mpk ms))); [exact Hs|apply H].
+Qed.
+
+Lemma minit_coh cs ixs : mcoh_all cs (minit (length cs) ixs).
+Proof.
+  intros pk. unfold minit. simpl. destruct pk as [|pk]; [apply coh_init|].
+  destruct (nth_in_or_default pk (repeat dflt_st (length cs - 1)) dflt_st) as [I|E].
+  - apply repeat_spec in I. rewrite I. apply coh_dflt.
+  - rewrite E. apply coh_dflt.
+Qed.
+
+Lemma mstep_coh cs ms o : mcoh_all cs ms -> mcoh_all cs (fst (mstep fixed cs ms o)).
+Proof.
+  intros H. destruct o as [o|pk o|g pk']; simpl.
+  - destruct (op_ix o) as [g|].
+    + destruct (nth_error (mwhere ms) g) as [[pk li]|]; simpl; auto.
+      pose proof (step_coh (nth pk cs dflt_cfg) (nth pk (mpk ms) dflt_st) (op_at o li) (H pk)) as S.
+      destruct (step fixed (nth pk cs dflt_cfg) (nth pk (mpk ms) dflt_st) (op_at o li)) as [s' b]. simpl in *.
+      apply mcoh_upd; auto.
+    + pose proof (step_coh (nth O cs dflt_cfg) (nth O (mpk ms) dflt_st) o (H O)) as S.
+      destruct (step fixed (nth O cs dflt_cfg) (nth O (mpk ms) dflt_st) o) as [s' b]. simpl in *.
+      apply mcoh_upd; auto.
+  - destruct (op_ix o); simpl; auto.
+    pose proof (step_coh (nth pk cs dflt_cfg) (nth pk (mpk ms) dflt_st) o (H pk)) as S.
+    destruct (step fixed (nth pk cs dflt_cfg) (nth pk (mpk ms) dflt_st) o) as [s' b]. simpl in *.
+    apply mcoh_upd; auto.
+  - destruct (nth_error (mwhere ms) g) as [[pk li]|]; simpl; auto.
+    destruct (Nat.leb (length cs) pk'); simpl; auto.
+    assert (P : forall x, mcoh_all cs (mkms (upd (mpk ms) pk'
+                (mkst (scc (nth pk' (mpk ms) dflt_st)) (smc (nth pk' (mpk ms) dflt_st)) (sixs (nth pk' (mpk ms) dflt_st) ++ [x])))
+                (upd (mwhere ms) g (pk', length (sixs (nth pk' (mpk ms) dflt_st)))))).
+    { intros x. apply mcoh_upd; auto. apply (coh_caches _ (nth pk' (mpk ms) dflt_st)); auto. }
+    destruct (nth_error (sixs (nth pk (mpk ms) dflt_st)) li) as [[d|phs rows]|]; simpl; auto.
+    + destruct (remap_row _ _ d _); simpl; auto.
+    + destruct (res_all _); simpl; auto.
+Qed.
+
+Lemma mrun_coh cs ops : forall ms, mcoh_all cs ms -> mcoh_all cs (fst (mrun fixed cs ms ops)).
+Proof.
+  induction ops as [|o r IH]; intros ms H; simpl; auto.
+  pose proof (mstep_coh cs ms o H) as H1. destruct (mstep fixed cs ms o) as [ms' b]. simpl in H1.
+  specialize (IH ms' H1). destruct (mrun fixed cs ms' r) as [ms'' bs]. simpl in *. exact IH.
+Qed.
+
+Definition mafter (cs : list cfg) (ixs : list ixr) (hist : list mop) : mstate :=
+  fst (mrun fixed cs (minit (length cs) ixs) hist).
+
+(* reads after any multi-package history, re-basings included, depend on the indexer's CURRENT package only *)
+Lemma mread_after_history cs ixs hist g k :
+  let ms := mafter cs ixs hist in
+  snd (mstep fixed cs ms (MOp (OGet g k))) =
+  match nth_error (mwhere ms) g with
+  | Some (pk, li) =>
+      let c := nth pk cs dflt_cfg in
+      match nth_error (sixs (nth pk (mpk ms) dflt_st)) li with
+      | Some (IC d) => obs_of_read (read_chem (tb c) d k)
+      | Some (IM phs rows) => obs_of_read (read_mat fixed (tb c) (nchem c) phs rows k)
+      | None => BErr EOther
+      end
+  | None => BErr EOther
+  end.
+Proof.
+  intros ms. pose proof (mrun_coh cs hist _ (minit_coh cs ixs)) as H. fold (mafter cs ixs hist) in H. fold ms in H.
+  cbv beta iota delta [mstep op_ix op_at]. destruct (nth_error (mwhere ms) g) as [[pk li]|]; [|reflexivity].
+  pose proof (read_history_independent (nth pk cs dflt_cfg) (nth pk (mpk ms) dflt_st) li k (H pk)) as R.
+  destruct (step fixed (nth pk cs dflt_cfg) (nth pk (mpk ms) dflt_st) (OGet li k)) as [s' b].
+  cbn [snd] in *. exact R.
+Qed.
+
+(* re-basing touches no cache of any package *)
+Lemma reset_keeps_caches vr cs ms g pk q :
+  let ms' := fst (mstep vr cs ms (MReset g pk)) in
+  scc (nth q (mpk ms') dflt_st) = scc (nth q (mpk ms) dflt_st) /\ smc (nth q (mpk ms') dflt_st) = smc (nth q (mpk ms) dflt_st).
+Proof.
+  simpl. destruct (nth_error (mwhere ms) g) as [[pk0 li]|]; simpl; auto.
+  destruct (Nat.leb (length cs) pk); simpl; auto.
+  assert (P : forall x w, let m := mkms (upd (mpk ms) pk
+                (mkst (scc (nth pk (mpk ms) dflt_st)) (smc (nth pk (mpk ms) dflt_st)) (sixs (nth pk (mpk ms) dflt_st) ++ [x]))) w in
+              scc (nth q (mpk m) dflt_st) = scc (nth q (mpk ms) dflt_st) /\ smc (nth q (mpk m) dflt_st) = smc (nth q (mpk ms) dflt_st)).
+  { intros x w. simpl. rewrite nth_upd_gen. destruct (Nat.eqb q pk) eqn:E; simpl; auto.
+    apply Nat.eqb_eq in E. subst. destruct (Nat.ltb pk (length (mpk ms))); simpl; auto. }
+  destruct (nth_error (sixs (nth pk0 (mpk ms) dflt_st)) li) as [[d|phs rows]|]; simpl; auto.
+  - destruct (remap_row _ _ d _); simpl; auto. apply (P (IC a) []).
+  - destruct (res_all _); simpl; auto. apply (P (IM phs a) []).
+Qed.
